@@ -11,6 +11,10 @@ Boffs = {1, 2}
 PBSet = {"none", "p0", "p7", "neg", "bad", "multi"}
 Trigs = {"open", "late"}
 FailCodes = {13, 14}
+MaxRPCs = 1
+ParkOn = FALSE
+HdrActs = {"HF", "MF"}
+UnprocActs = {"REF", "GOAWAY"}
 INIT Init
 NEXT Next
 CHECK_DEADLOCK FALSE
